@@ -73,7 +73,7 @@ def align(script_lines, out_lines):
             if oi < n and out_lines[oi] == "dump-end":
                 oi += 1
             st.dump = d
-        elif st.op in ("put", "append", "putn", "rm", "rmdir", "mkdirp", "chmod", "symlink"):
+        elif st.op in ("put", "putforeign", "append", "putn", "rm", "rmdir", "mkdirp", "chmod", "symlink"):
             while oi < n and out_lines[oi].startswith("env-error"):
                 st.out.append(out_lines[oi])
                 oi += 1
@@ -156,7 +156,7 @@ def tag_env(steps):
         if st.dump is not None:
             st.tag_same_env = clean
             clean = True
-        elif st.op in ("put", "append", "putn", "rm", "rmdir", "mkdirp", "chmod", "symlink"):
+        elif st.op in ("put", "putforeign", "append", "putn", "rm", "rmdir", "mkdirp", "chmod", "symlink"):
             clean = False
 
 
